@@ -247,7 +247,8 @@ impl Prop for C10 {
         ];
         let rules: Vec<dm::Rule> = pool.into_iter().filter(|_| r.chance(2, 5)).take(3).collect();
         let k = 1 + r.usize(3); let vars = ["?a", "?b", "?c", "?d"];
-        let block: Vec<Pat> = (0..k).map(|i| (if r.chance(1, 5) { node(&mut r) } else { vars[i].to_string() }, iri(preds[r.usize(3)]), if r.chance(1, 5) { node(&mut r) } else { vars[i + 1].to_string() })).collect();
+        let varpred = cfg.chance(1, 6);
+        let block: Vec<Pat> = (0..k).map(|i| (if r.chance(1, 5) { node(&mut r) } else { vars[i].to_string() }, if varpred && i == 0 { "?pv".to_string() } else { iri(preds[r.usize(3)]) }, if r.chance(1, 5) { node(&mut r) } else { vars[i + 1].to_string() })).collect();
         let collisions = cfg.chance(1, 3);
         let gapmode = cfg.below(4);
         let n = 4 + r.usize(16);
